@@ -25,7 +25,19 @@ static std::string tokenize(const std::string& path, Parsed& P, bool expect_cell
     for (long k = 0; k < P.ncelltypes; k++) { std::string v = T.next(); if (!is_int(v)) { snprintf(buf, sizeof buf, "declared-CELL_TYPES-count-exceeds-entries: %ld", P.ncelltypes); return buf; } }
     if (is_int(T.peek())) return "more-CELL_TYPES-entries-than-declared";
     if (P.ncelltypes != nc) { snprintf(buf, sizeof buf, "CELL_TYPES-count-differs-from-CELLS-count: %ld vs %ld", P.ncelltypes, nc); return buf; }
-    if (!expect_cell_data) { if (!T.end()) return "unexpected-trailing-content: " + T.peek(); return ""; }
+    if (!expect_cell_data) {   // face-data files: any sequence of attribute sections, every one of them checked against the count of the data set it belongs to
+        long count = -1; std::string owner;
+        while (!T.end()) { std::string kw = T.next();
+            if (kw == "CELL_DATA" || kw == "POINT_DATA") { std::string n2 = T.next(); if (!is_int(n2)) return kw + "-count-not-integer"; count = atol(n2.c_str()); owner = kw; const long have = kw == "CELL_DATA" ? nc : np; if (count != have) { snprintf(buf, sizeof buf, "%s-count-differs-from-the-data-set: %ld declared, %ld present", kw.c_str(), count, have); return buf; } }
+            else if (kw == "FIELD") { if (count < 0) return "FIELD-outside-an-attribute-section"; T.next(); std::string nf = T.next(); if (!is_int(nf)) return "FIELD-count-not-integer"; long nfields = atol(nf.c_str());
+                for (long k = 0; k < nfields; k++) { std::string name = T.next(), comp = T.next(), len = T.next(), type = T.next(); if (!is_int(comp) || !is_int(len)) { snprintf(buf, sizeof buf, "declared-field-count-exceeds-fields: FIELD %ld but field %ld header is '%s %s %s'", nfields, k, name.c_str(), comp.c_str(), len.c_str()); return buf; }
+                    if (atol(len.c_str()) != count) { snprintf(buf, sizeof buf, "field-length-differs-from-%s-count: %s declares %s for %ld", owner.c_str(), name.c_str(), len.c_str(), count); return buf; } long L = atol(comp.c_str()) * atol(len.c_str());
+                    for (long j = 0; j < L; j++) { std::string v = T.next(); if (!is_num(v)) { snprintf(buf, sizeof buf, "field-shorter-than-declared: %s declares %ld values, token %ld is '%s'", name.c_str(), L, j, v.c_str()); return buf; } P.fields[name].push_back(v); }
+                    if (is_num(T.peek())) { snprintf(buf, sizeof buf, "field-longer-than-declared: %s declares %ld values and is followed by the number '%s'", name.c_str(), L, T.peek().c_str()); return buf; } } }
+            else if (kw == "VECTORS" || kw == "NORMALS") { if (count < 0) return kw + "-outside-an-attribute-section"; std::string name = T.next(); T.next(); for (long j = 0; j < 3 * count; j++) { std::string v = T.next(); if (!is_num(v)) { snprintf(buf, sizeof buf, "vector-array-shorter-than-its-section: %s in %s %ld, token %ld is '%s'", name.c_str(), owner.c_str(), count, j, v.c_str()); return buf; } }
+                if (is_num(T.peek())) { snprintf(buf, sizeof buf, "vector-array-longer-than-its-section: %s holds more than 3 x %ld numbers (%s %ld)", name.c_str(), count, owner.c_str(), count); return buf; } }
+            else return "unexpected-content-after-the-geometry: " + kw; }
+        return ""; }
     if (T.next() != "CELL_DATA") return "CELL_DATA-keyword-missing"; std::string cd = T.next(); if (!is_int(cd)) return "CELL_DATA-count-not-integer"; P.celldata_n = atol(cd.c_str());
     if (P.celldata_n != nc) { snprintf(buf, sizeof buf, "CELL_DATA-count-differs-from-CELLS-count: %ld vs %ld", P.celldata_n, nc); return buf; }
     if (T.next() != "FIELD") return "FIELD-keyword-missing"; T.next(); std::string nf = T.next(); if (!is_int(nf)) return "FIELD-count-not-integer"; long nfields = atol(nf.c_str());
